@@ -493,20 +493,20 @@ def check(run):
                 "helpers sharing the context) and a normal return; (R10c) the max_errors cap follows the append on "
                 "every returning path with relation >=; (R10d) only handle_error branches on collect_errors.")
     funcs = c04.in_scope_functions(run) + list(run.repo.module("utype.parser.options").functions.values())
-    validate_policy(run)
-    r10a(run, funcs)
-    c04.r04b(run, c04.in_scope_functions(run))
-    r10b(run, funcs)
-    r10c(run)
-    r10d(run)
-    r10e(run, c04.in_scope_functions(run))
-    r10f(run)
-    r10h(run)
-    r10g(run)
-    r10i(run, funcs)
+    run.rule(validate_policy, run)
+    run.rule(r10a, run, funcs)
+    run.rule(c04.r04b, run, c04.in_scope_functions(run))
+    run.rule(r10b, run, funcs)
+    run.rule(r10c, run)
+    run.rule(r10d, run)
+    run.rule(r10e, run, c04.in_scope_functions(run))
+    run.rule(r10f, run)
+    run.rule(r10h, run)
+    run.rule(r10g, run)
+    run.rule(r10i, run, funcs)
     # shared clauses that are necessary for C10 as well
     from . import c06, c07
     pd, A, B = c06.siblings(run)
     run.rules_run += ["R06d", "R07e"]
-    c06.r06d(run, A, B)
-    c07.r07e(run, c07.schema_class(run))
+    run.rule(c06.r06d, run, A, B)
+    run.rule(c07.r07e, run, c07.schema_class(run))
